@@ -37,10 +37,10 @@ inductive GuardVariant | proxyOnly | proxyAndTranslator
   deriving DecidableEq, Repr
 
 /-- The tree under verification (flip when fixes/C17-*.patch are applied; see Props/C17.lean). -/
-def activeKey : KeyVariant := .remoteAddr
-def activeRefusal : RefusalVariant := .pinned
-def activeBody : BodyVariant := .declaredOnly
-def activeGuard : GuardVariant := .proxyOnly
+def activeKey : KeyVariant := .clientIP
+def activeRefusal : RefusalVariant := .fixed
+def activeBody : BodyVariant := .readerWrapped
+def activeGuard : GuardVariant := .proxyAndTranslator
 
 /-! ### Rate limiting -/
 
